@@ -105,6 +105,16 @@ def ref_accepts(flt, ev):
     return ftype == "BaseEvent" or ftype == n
 
 
+def fixed_message(layout, op, kind, i):
+    from props.c15 import target_for
+    dev, vec = target_for(layout, kind)
+    val = ALT[kind] if i == 0 else NOMINAL[kind]
+    if op == "def":
+        return def_message(kind, dev, vec, "Busy" if i == 0 else "Alert",
+                           [child_for(kind, "def", "E1", None if kind == "BLOB" else val)])
+    return set_message(kind, dev, vec, "Busy" if i == 0 else "Alert", [child_for(kind, "one", "E1", val)])
+
+
 def events_step(layout, op, kind, mode, second=None):
     """mode: 'chain' (recorder vs reference), 'filter', 'remove', 'raise'."""
     def body(d: Draw):
@@ -120,16 +130,28 @@ def events_step(layout, op, kind, mode, second=None):
                 raise RuntimeError("callback failure")
             client.onevent(callback=bad)
         client.onevent(callback=lambda e: rec.append(event_tuple(e)))
-        msgs = [draw_message(d, op, kind, 1)]
-        if second is not None:
-            msgs.append(draw_message(d, second[0], second[1], 1))
+        if mode in ("filter", "remove"):
+            # the filter / removal choices are the subject here: the messages are
+            # fixed ones that do raise events (symbolic addressing multiplied the
+            # 108 filter combinations by 170 message paths)
+            msgs = [fixed_message(layout, op, kind, 0)]
+            if second is not None:
+                msgs.append(fixed_message(layout, second[0], second[1], 1))
+        else:
+            msgs = [draw_message(d, op, kind, 1)]
+            if second is not None:
+                msgs.append(draw_message(d, second[0], second[1], 1))
         if mode in ("filter", "remove"):
             m0 = msgs[0]
             tgt_el = m0.children[0].name if getattr(m0, "children", None) else "E1"
             fdev = d.choice((None, m0.device, "D2" if m0.device != "D2" else "D1"), "f-device")
             fvec = d.choice((None, getattr(m0, "name", None) or "V1", "V2" if getattr(m0, "name", None) != "V2" else "V1"), "f-vector")
-            fel = d.choice((None, tgt_el, "E2" if tgt_el != "E2" else "E1"), "f-element")
-            ftype = d.choice(("BaseEvent", "ValueUpdate", "StateUpdate", "DefinitionUpdate"), "f-type")
+            if mode == "remove":
+                fel = None
+                ftype = d.choice(("BaseEvent", "ValueUpdate"), "f-type")
+            else:
+                fel = d.choice((None, tgt_el, "E2" if tgt_el != "E2" else "E1"), "f-element")
+                ftype = d.choice(("BaseEvent", "ValueUpdate", "StateUpdate", "DefinitionUpdate"), "f-type")
             flt = (fdev, fvec, fel, ftype)
             cb = lambda e: flog.append(event_tuple(e))
             fuid = client.onevent(callback=cb, device=fdev, vector=fvec, element=fel, event_type=types[ftype])
@@ -155,6 +177,10 @@ def events_step(layout, op, kind, mode, second=None):
             ref = ref_step(ref, m)
             exp_all.extend(expected_events(before, ref, m))
         if mode == "remove" and removed_at == len(msgs):
+            if by_criteria:
+                client.rmonevent(device=flt[0], vector=flt[1], element=flt[2], event_type=types[flt[3]], callback=cb)
+            else:
+                client.rmonevent(uuid=fuid)
             marks.append(len(rec))
         if MODE.trace is not None:
             note("messages", [(type(m).__name__, m.device, getattr(m, "name", None)) for m in msgs])
@@ -163,6 +189,26 @@ def events_step(layout, op, kind, mode, second=None):
             note("filter", flt, "filtered log", flog)
         if mode in ("chain", "raise"):
             return verdict(same_multiset(rec, exp_all), "the events raised differ from the changes of the mirror")
+        if mode == "chain-lenient":
+            # Everything but the recorded finding (definition-time events carry
+            # old=None and are raised even without a change): every required
+            # event is present up to its old value, and every extra event at
+            # least announces the value the mirror now holds.
+            strip = lambda e: (e[0], e[1], e[2], e[3], e[5])
+            got = [strip(e) for e in rec]
+            for e in exp_all:
+                if strip(e) not in got:
+                    return verdict(False, "a required event is missing")
+                got.remove(strip(e))
+            for g in got:
+                n, dev, vec, el, new = g
+                v = ref.get(dev, {}).get(vec)
+                if v is None:
+                    return verdict(False, "event for a property the mirror does not hold")
+                cur = v.state if n == "StateUpdate" else v.elements.get(el)
+                if n == "DefinitionUpdate" or new != cur:
+                    return verdict(False, "an extra event announces a value the mirror does not hold")
+            return verdict(True)
         if mode == "filter":
             want = [e for e in rec if ref_accepts(flt, e)]
             return verdict(same_multiset(flog, want), "a filtered callback saw the wrong events")
@@ -185,6 +231,11 @@ def conditions(tier):
                 out.append(Condition(f"chain/{layout}/{op}{kind}", make_condition(events_step(layout, op, kind, "chain"), 3, 8, 1),
                                      about=f"every event raised by one {op}{kind}Vector equals the change of the mirror (old/new from snapshots)",
                                      encodes=ENC, timeout=900))
+                if op == "def" and kf_open(SIG_DEF_CHAIN):
+                    out.append(Condition(f"chainx/{layout}/{op}{kind}", make_condition(events_step(layout, op, kind, "chain-lenient"), 3, 8, 1),
+                                         about=f"{op}{kind}Vector: all required events present with the right new value, extras only "
+                                               f"re-announce the mirror's value (the recorded finding's class carved out)",
+                                         encodes=ENC, timeout=900))
         out.append(Condition(f"chain/{layout}/delProperty", make_condition(events_step(layout, "del", None, "chain"), 3, 4, 1),
                              about="delProperty raises no value/state events", encodes=ENC, timeout=600))
     out.append(Condition("filter/A/setText", make_condition(events_step("A", "set", "Text", "filter"), 3, 10, 1),
@@ -193,7 +244,7 @@ def conditions(tier):
                          about="one callback with a symbolic filter sees exactly the matching events", encodes=ENC, timeout=1800))
     out.append(Condition("raise/A/setText", make_condition(events_step("A", "set", "Text", "raise"), 3, 8, 1),
                          about="a raising callback registered first does not starve the recorder", encodes=ENC, timeout=900))
-    out.append(Condition("raise/B/defLight", make_condition(events_step("B", "def", "Light", "raise"), 3, 8, 1),
+    out.append(Condition("raise/B/setLight", make_condition(events_step("B", "set", "Light", "raise"), 3, 8, 1),
                          about="a raising callback registered first does not starve the recorder", encodes=ENC, timeout=900))
     out.append(Condition("remove/A/setText+setText", make_condition(events_step("A", "set", "Text", "remove", ("set", "Text")), 4, 16, 2),
                          about="removal by id or by criteria before / between / after two messages", encodes=ENC, timeout=2400,
